@@ -30,13 +30,13 @@ theorem cp_parseError {c : List Id} {msg : String} : CP d0 c (parseError msg) (f
   unfold H5V.Model.HtmlTB.parseError
   exact cp_sinkUnit_nt rfl (fun _ _ _ => contract_parseError)
 
-macro_rules | `(tactic| cp_leaf) => `(tactic| exact cp_parseError)
+macro_rules | `(tactic| cp_leaf) => `(tactic| with_reducible exact cp_parseError)
 
 theorem cp_unexpected {c : List Id} : CP d0 c unexpected (fun _ => []) := by
   unfold H5V.Model.HtmlTB.unexpected
   cp_walk
 
-macro_rules | `(tactic| cp_leaf) => `(tactic| exact cp_unexpected)
+macro_rules | `(tactic| cp_leaf) => `(tactic| with_reducible exact cp_unexpected)
 
 theorem cp_elemName {c : List Id} {h : Id} (hh : h ∈ c) : CP d0 c (elemName h) (fun _ => []) := by
   unfold H5V.Model.HtmlTB.elemName
@@ -44,7 +44,7 @@ theorem cp_elemName {c : List Id} {h : Id} (hh : h ∈ c) : CP d0 c (elemName h)
   intro out
   cases out <;> first | exact cp_pure_nil _ | exact cp_throw (Or.inl (by decide))
 
-macro_rules | `(tactic| cp_leaf) => `(tactic| exact cp_elemName (by ctx_mem))
+macro_rules | `(tactic| cp_leaf) => `(tactic| with_reducible exact cp_elemName (by ctx_mem))
 
 theorem cp_sameNode {c : List Id} {x y : Id} (hx : x ∈ c) (hy : y ∈ c) : CP d0 c (sameNode x y) (fun _ => []) := by
   unfold H5V.Model.HtmlTB.sameNode sinkBool
@@ -52,7 +52,7 @@ theorem cp_sameNode {c : List Id} {x y : Id} (hx : x ∈ c) (hy : y ∈ c) : CP 
   intro out
   cases out <;> first | exact cp_pure_nil _ | exact cp_throw (Or.inl (by decide))
 
-macro_rules | `(tactic| cp_leaf) => `(tactic| exact cp_sameNode (by ctx_mem) (by ctx_mem))
+macro_rules | `(tactic| cp_leaf) => `(tactic| with_reducible exact cp_sameNode (by ctx_mem) (by ctx_mem))
 
 theorem cp_isMathmlIP {c : List Id} {h : Id} (hh : h ∈ c) :
     CP d0 c (sinkBool (.isMathmlAnnotationXmlIntegrationPoint h)) (fun _ => []) := by
@@ -61,26 +61,26 @@ theorem cp_isMathmlIP {c : List Id} {h : Id} (hh : h ∈ c) :
   intro out
   cases out <;> first | exact cp_pure_nil _ | exact cp_throw (Or.inl (by decide))
 
-macro_rules | `(tactic| cp_leaf) => `(tactic| exact cp_isMathmlIP (by ctx_mem))
+macro_rules | `(tactic| cp_leaf) => `(tactic| with_reducible exact cp_isMathmlIP (by ctx_mem))
 
 theorem cp_htmlElemNamedS {c : List Id} {h : Id} {name : Str} (hh : h ∈ c) :
     CP d0 c (htmlElemNamedS h name) (fun _ => []) := by
   unfold H5V.Model.HtmlTB.htmlElemNamedS
   cp_walk
 
-macro_rules | `(tactic| cp_leaf) => `(tactic| exact cp_htmlElemNamedS (by ctx_mem))
+macro_rules | `(tactic| cp_leaf) => `(tactic| with_reducible exact cp_htmlElemNamedS (by ctx_mem))
 
 theorem cp_htmlElemNamed {c : List Id} {h : Id} {name : String} (hh : h ∈ c) :
     CP d0 c (htmlElemNamed h name) (fun _ => []) := cp_htmlElemNamedS hh
 
-macro_rules | `(tactic| cp_leaf) => `(tactic| exact cp_htmlElemNamed (by ctx_mem))
+macro_rules | `(tactic| cp_leaf) => `(tactic| with_reducible exact cp_htmlElemNamed (by ctx_mem))
 
 theorem cp_elemIn {c : List Id} {h : Id} {set : EName → Bool} (hh : h ∈ c) :
     CP d0 c (elemIn h set) (fun _ => []) := by
   unfold H5V.Model.HtmlTB.elemIn
   cp_walk
 
-macro_rules | `(tactic| cp_leaf) => `(tactic| exact cp_elemIn (by ctx_mem))
+macro_rules | `(tactic| cp_leaf) => `(tactic| with_reducible exact cp_elemIn (by ctx_mem))
 
 /-! ### the stack -/
 
@@ -100,24 +100,24 @@ theorem cp_currentNode {c : List Id} : CP d0 c currentNode (fun h => [h]) := by
     simp only [stH, List.mem_append]
     exact Or.inl (Or.inl (Or.inl (Or.inl (Or.inl (getLast?_mem' hl)))))
 
-macro_rules | `(tactic| cp_leaf) => `(tactic| exact cp_currentNode)
+macro_rules | `(tactic| cp_leaf) => `(tactic| with_reducible exact cp_currentNode)
 
 theorem cp_currentNodeIn {c : List Id} {set : EName → Bool} : CP d0 c (currentNodeIn set) (fun _ => []) := by
   unfold H5V.Model.HtmlTB.currentNodeIn
   cp_walk
 
-macro_rules | `(tactic| cp_leaf) => `(tactic| exact cp_currentNodeIn)
+macro_rules | `(tactic| cp_leaf) => `(tactic| with_reducible exact cp_currentNodeIn)
 
 theorem cp_currentNodeNamedS {c : List Id} {name : Str} : CP d0 c (currentNodeNamedS name) (fun _ => []) := by
   unfold H5V.Model.HtmlTB.currentNodeNamedS
   cp_walk
 
-macro_rules | `(tactic| cp_leaf) => `(tactic| exact cp_currentNodeNamedS)
+macro_rules | `(tactic| cp_leaf) => `(tactic| with_reducible exact cp_currentNodeNamedS)
 
 theorem cp_currentNodeNamed {c : List Id} {name : String} : CP d0 c (currentNodeNamed name) (fun _ => []) :=
   cp_currentNodeNamedS
 
-macro_rules | `(tactic| cp_leaf) => `(tactic| exact cp_currentNodeNamed)
+macro_rules | `(tactic| cp_leaf) => `(tactic| with_reducible exact cp_currentNodeNamed)
 
 /-- a builder-field update that only shrinks the stack / the AF list -/
 theorem cp_modS_shrink {c : List Id} {f : State → State}
@@ -160,7 +160,7 @@ theorem cp_pop {c : List Id} : CP d0 c pop (fun h => [h]) := by
     intro _
     exact cp_pure h (by intro x hx; rw [List.mem_singleton.mp hx]; simp [hmem])
 
-macro_rules | `(tactic| cp_leaf) => `(tactic| exact cp_pop)
+macro_rules | `(tactic| cp_leaf) => `(tactic| with_reducible exact cp_pop)
 
 /-- `open_elems.pop()` without telling the sink -/
 theorem cp_popSilently {c : List Id} : CP d0 c popSilently (fun r => r.toList) := by
@@ -177,7 +177,7 @@ theorem cp_popSilently {c : List Id} : CP d0 c popSilently (fun r => r.toList) :
     refine cpat_set_bind (fun hcb => cb_dropStack hcb (List.dropLast_sublist _)) ?_
     exact cp_pure (some h) (by intro x hx; simp at hx; subst hx; exact hmem)
 
-macro_rules | `(tactic| cp_leaf) => `(tactic| exact cp_popSilently)
+macro_rules | `(tactic| cp_leaf) => `(tactic| with_reducible exact cp_popSilently)
 
 theorem cp_setMode {c : List Id} {m : Mode} (hm : m ≠ .initial) : CP d0 c (setMode m) (fun _ => []) := by
   unfold H5V.Model.HtmlTB.setMode
@@ -189,7 +189,7 @@ theorem cp_setFramesetOk {c : List Id} {b : Bool} : CP d0 c (setFramesetOk b) (f
   exact cp_modS_shrink (fun _ => rfl) (fun _ => rfl) (fun _ => rfl) (fun _ => List.Sublist.refl _)
     (fun _ _ h => h) (fun _ _ h => h) (fun _ _ h => h) (fun _ _ h => h) (fun s hl => ⟨hl.mode, hl.orig, hl.tm⟩)
 
-macro_rules | `(tactic| cp_leaf) => `(tactic| exact cp_setFramesetOk)
+macro_rules | `(tactic| cp_leaf) => `(tactic| with_reducible exact cp_setFramesetOk)
 
 /-- a first loop over the stack: `in_html_elem_named` -/
 theorem cp_anyHtmlElemNamed {c : List Id} {name : String} : ∀ (l : List Id), (∀ x ∈ l, x ∈ c) →
@@ -212,7 +212,7 @@ theorem cp_inHtmlElemNamed {c : List Id} {name : String} : CP d0 c (inHtmlElemNa
   intro s0
   exact cp_anyHtmlElemNamed _ (fun x hx => by simp only [stH, List.mem_append]; exact Or.inl (Or.inl (Or.inl (Or.inl (Or.inl hx)))))
 
-macro_rules | `(tactic| cp_leaf) => `(tactic| exact cp_inHtmlElemNamed)
+macro_rules | `(tactic| cp_leaf) => `(tactic| with_reducible exact cp_inHtmlElemNamed)
 
 /-- a fuel loop: `generate_implied_end_tags` -/
 theorem cp_generateImpliedEndTagsLoop {c : List Id} {set : EName → Bool} : ∀ (fuel : Nat),
@@ -245,6 +245,6 @@ theorem cp_generateImpliedEndTags {c : List Id} {set : EName → Bool} :
   intro s0
   exact cp_generateImpliedEndTagsLoop _
 
-macro_rules | `(tactic| cp_leaf) => `(tactic| exact cp_generateImpliedEndTags)
+macro_rules | `(tactic| cp_leaf) => `(tactic| with_reducible exact cp_generateImpliedEndTags)
 
 end H5V.Lemmas.TBC
